@@ -912,6 +912,40 @@ def run_setters(case):
             'outcome': '|'.join(sorted(outcomes)), 'nontrivial': True}
 
 
+QUAD_OPS = {'Lmid': ('setLebedevIntegration', ('mid',), {}), 'Lhigh': ('setLebedevIntegration', ('high',), {}),
+            'Ioct8': ('setIntegrationIntervals', (8, 8), {}),                       # assumeSymmetric left at its default
+            'Ifull16': ('setIntegrationIntervals', (16, 16), {'assumeSymmetric': False})}
+
+
+def run_quadswitch(case):
+    """Histories over the quadrature setters of one description object (seed s16e: a flag set by one quadrature survived the
+    switch to another).  Oracle: the energy after the history equals the energy of a fresh object that only received the last
+    setter of the history - same configuration, same quadrature, so the same number up to rounding, whatever its accuracy."""
+    cfg, hist = case['cfg'], case['hist']
+    r = np.array(AXES[cfg['axes']]) * R0
+    V = Viol()
+    canon = [o for o in SETTER_CANON if o in case['ops']]
+
+    def build(qs):
+        se = EF.StrainEnergy()
+        for op in canon:
+            _apply_op(se, op, cfg)
+        for q in qs:
+            name, a, kw = QUAD_OPS[q]
+            getattr(se.description, name)(*a, **kw)
+        return float(se.compute(r))
+    try:
+        got, ref = build(hist), build(hist[-1:])
+    except Exception as e:
+        V.add('quadrature-switch/exception/%s' % type(e).__name__, 'cfg=%r history=%s: %r' % (cfg, ','.join(hist), e))
+        return {'viol': V.out(), 'states': 1, 'transitions': len(hist), 'outcome': 'exception'}
+    if not close(got, ref, 1e-12):
+        V.add('quadrature-switch/history-dependent/last=%s' % hist[-1],
+              'cfg=%r: quadrature setters %s give compute = %r, a fresh object with only %s gives %r (rel %.3g)'
+              % (cfg, ','.join(hist), got, hist[-1], ref, got / ref - 1 if ref else float('nan')))
+    return {'viol': V.out(), 'states': 1, 'transitions': len(hist), 'traces': 1, 'outcome': 'last=%s' % hist[-1], 'nontrivial': len(hist) > 1}
+
+
 # ------------------------------------------------------------------------------------------------------
 # stage 3: Lebedev exactness
 
@@ -1208,6 +1242,12 @@ def run(ctx):
             for first in ops:
                 scases.append({'cfg': cfg, 'ops': ops, 'first': first})
     ctx.product_run('setters', 'checks.c16:run_setters', scases, chunksize=1)
+    qdepth = 3 if quick else 4
+    qcases = [{'cfg': cfg, 'ops': opsets[1], 'hist': list(h)} for cfg in cfgs for k in range(2, qdepth + 1)
+              for h in itertools.product(sorted(QUAD_OPS), repeat=k)]
+    ctx.bounds['quadrature_switch'] = {'ops': {k: [v[0], list(v[1]), v[2]] for k, v in QUAD_OPS.items()}, 'depth': qdepth,
+                                       'configurations': len(cfgs)}
+    ctx.product_run('quadrature-switch', 'checks.c16:run_quadswitch', qcases)
 
     # stage 3
     lcases = []
